@@ -118,11 +118,22 @@ def gen_c09(rng, n, maxlen):
         elif r < 0.9:
             a = G.gen_rat(rng, min(maxlen, 3))
             out.append(("num-roundtrip", ("nfs", ("ndisp", a))))
-        elif r < 0.95:
+        elif r < 0.93:
             out.append(("base-range", ("tsb", G.gen_big(rng, 2), ("U", rng.choice([0, 37, 100])))))
-        else:
+        elif r < 0.96:
             s = "".join(rng.choice("0123456789ABCXYZ!az -") for _ in range(rng.randint(0, 6)))
             out.append(("fsb-text", ("fsb", ("T", s), ("U", rng.choice([2, 10, 16, 36])))))
+        else:
+            # any text of accepted characters (C09_from_string_any_text): leading zeros, digits at or above the base,
+            # every base 1..36, optional minus, long bodies (several limbs); sometimes one foreign character
+            body = "".join(rng.choice("0123456789ABCDEFGHIJKLMNOPQRSTUVWXYZ") for _ in range(rng.choice([0, 1, 2, 5, 9, 10, 20, 40])))
+            if rng.random() < 0.4:
+                body = "0" * rng.randint(1, 3) + body
+            if rng.random() < 0.15:
+                k = rng.randint(0, len(body))
+                body = body[:k] + rng.choice("az/@[`:+_. \u00e9\uff11") + body[k:]
+            s = ("-" if rng.random() < 0.4 else "") + body
+            out.append(("fsb-anytext", ("fsb", ("T", s), ("U", rng.randint(1, 36)))))
     return out
 
 
